@@ -16,6 +16,9 @@ CHECKS = {
  "C05": ("E1-enum", "bounded exhaustive enumeration of codecs x values x tags checking the Size/Append/Read/framing laws on the real Codec objects, plus a schema-directed framing walker",
    "For every type of the universe (whole type and base type under its tag option) and every boundary value, the codec obtained from CodecForType is driven directly: Size==len(Append) for nil/1/2/5-byte tags, tagged form == tag+[len]+untagged body, Read(body) consumes len(body), and every Marshal output is walked by a value-blind, schema-directed framing checker to its exact end. Exported time codecs (BQTimestampCodec, TimeCompatCodec) over the time universe.",
    "Trusted: the framing walker ref.Walk, the wire-class model ref.ClassOf. JSON-any codecs are exercised by C16.", "§7 C05"),
+ "C18": ("E1-enum", "exhaustive enumeration of closed numeric sets and of all short byte strings against independent references (encoding/binary, a reference skipper)",
+   "Varint/zig-zag: every uint64 whose 7-bit groups come from {00,01,3f,40,7f} (3.9M), every 2^k+-1, every value with <=3 bits set and its complement, thorough: all 2^32 values v and v<<32. Tags: wire types 0-7 x every index <=2^16 plus boundaries to 2^28. Skip: every reference-encoded field x suffix, every truncation, every byte string of length <=2 (thorough <=3) x wire types 0-7, and boundary-varint token strings, decided against a reference skipper (well-formed => exact length, malformed/truncated => error).",
+   "Trusted: encoding/binary, the reference skipper in props/c18.go. Varints longer than 10 bytes are a declared grey zone for Skip.", "§7 C18"),
 }
 NOT_YET = "check not built yet (in progress); see DESIGN.md §7 for the planned model-checking design"
 
